@@ -128,6 +128,11 @@ def main():
                 return ['x', [emb.rk(x) for x in t.keys(**kw)]]
             if op == 'x-minmax':
                 return ['x', emb.rk(t.minKey(rk)), emb.rk(t.maxKey(rk))]
+            if op == 'x-byvalue':
+                # (the numeric value of the bound is the rank itself: small numbers, exact divisions)
+                res = t.byValue(emb.val(v))
+                pairs = [[x if isinstance(x, (int, float)) and not isinstance(x, bool) else emb.rv(x), emb.rk(y)] for x, y in list(res)]
+                return ['x', 'list' if isinstance(res, list) else 'not-a-list', pairs]
             if op == 'x-index':
                 s = t.keys()
                 return ['x', emb.rk(s[k % max(1, len(s))]), emb.rk(s[-1])]
@@ -147,7 +152,7 @@ def main():
                'ior', 'isub', 'iand', 'ixor', 'update', 'clear', 'badwrite', 'badcontains', 'x-range', 'x-minmax', 'x-index']
     ops_map = ['setitem', 'setitem', 'setitem', 'insert', 'setdefault', 'delitem', 'delitem', 'pop', 'popdefault', 'popitem', 'get',
                'getitem', 'contains', 'len', 'bool', 'update', 'clear', 'badwrite', 'badget', 'badgetitem', 'badcontains',
-               'x-range', 'x-minmax', 'x-index']
+               'x-range', 'x-minmax', 'x-index', 'x-byvalue']
     for tno in range(job['ntraces']):
         tc, tp = C[ki](), PY[ki]()
         tr = []
